@@ -494,6 +494,12 @@ class Interp:
         if isinstance(ty, TList) and isinstance(val, (ConstSeq, tuple)):
             items = val.items if isinstance(val, ConstSeq) else list(val)
             return self.new_list(items, ty.t)
+        if isinstance(ty, TSet) and isinstance(val, SetV) and val.ety == ANY and ty.t not in (ANY, NONE):
+            # `self.x = set()`: the fresh empty set takes the declared element type of the field
+            val.ety = ty.t
+            nme, a = self.set_arr(val)
+            self.heap.set(nme, z3.Store(a, val.ref, z3.K(sort_of(val.ety), z3.BoolVal(False))))
+            return val
         if isinstance(ty, TSet) and isinstance(val, SymSet):
             r = self.alloc('set')
             name, a = self.set_arr(SetV(r, ty.t))
@@ -1018,10 +1024,11 @@ class InterpExpr:
                 return ext(self, obj)
         raise Unsupported(f'{cls}.{attr}: neither property, field, method nor class constant (line {line})')
 
-    def _has_fun(self, ty):
-        if isinstance(ty, TFun):
+    def _has_fun(self, ty, inner=False):
+        """the declared type holds callables / classes (Callable, Type, or an untyped element of a container)"""
+        if isinstance(ty, TFun) or (inner and ty == ANY):
             return True
-        return any(self._has_fun(x) for x in (getattr(ty, 't', None), getattr(ty, 'k', None), getattr(ty, 'v', None))
+        return any(self._has_fun(x, True) for x in (getattr(ty, 't', None), getattr(ty, 'k', None), getattr(ty, 'v', None))
                    if isinstance(x, Ty))
 
     def class_const(self, cc):
